@@ -324,6 +324,8 @@ class Interp:
         r = s.check()
         self.solver_time += time.time() - t
         self.queries += 1
+        if r == z3.unsat and SECOND["budget"] > 0:
+            _second_backend(s)
         return r, s
 
     _base = None
@@ -1614,12 +1616,14 @@ class Interp:
                 if isinstance(src, SOpaque) and hasattr(src, "lookup"):
                     # {k1: v1, **m, ...}: a copy of m; earlier keys survive only where m has no such key
                     m = src.copy()
-                    for key, val in d.items.items():
+                    earlier = list(d.entries) if isinstance(d, SOpaque) else list(d.items.items())
+                    for key, val in earlier:
                         found, _ = m.lookup(self, key)
                         if not found:
                             m.store(self, key, val)
                     m.log = []
-                    m.displayed_before = dict(d.items)
+                    m.displayed_before = dict(earlier) if not isinstance(d, SOpaque) else {}
+                    m.displayed_before_entries = earlier
                     d = m
                     continue
                 if isinstance(d, SOpaque):
@@ -2206,6 +2210,19 @@ class Interp:
                     if self.branch(e if not isinstance(e, bool) else e):
                         return mem
                 self.raise_(ValueError, "not a valid enum value")
+        if hasattr(cls, "model_fields") and hasattr(cls, "model_validate"):
+            # a pydantic model built from keyword arguments (field names; populate_by_name): assumed to store the values it
+            # is given; validation and coercion are not modelled, fields not given are unknown defaults
+            if args:
+                raise Unsupported(f"positional arguments for pydantic model {cls.__name__}")
+            obj = SObj(cls, {})
+            for k, v in kwargs.items():
+                if k not in cls.model_fields:
+                    self.raise_(TypeError, f"unexpected keyword argument {k}")
+                obj.fields[k] = v
+            for k in cls.model_fields:
+                obj.fields.setdefault(k, SOpaque(f"{cls.__name__}.{k} (default)"))
+            return obj
         fields = _init_fields(cls)
         if fields is not None:
             obj = SObj(cls, {})
@@ -2241,6 +2258,50 @@ class LoopInvariantFailure(Exception):
 
 class CyclicValue(Exception):
     """a python-side structure contains itself (e.g. a dict stored into itself): it equals no finite JSON value"""
+
+
+# ---- second back end: every `unsat` (a pruned path, a proved clause, a discharged loop VC) can be re-decided by cvc5 -------
+SECOND = {"budget": 0, "rechecked": 0, "agree": 0, "unknown": 0, "unsupported": 0, "disagree": 0, "time_ms": 0}
+SECOND_FILES = []
+
+
+def _second_backend(solver):
+    import os
+    import subprocess
+    import tempfile
+    import time
+    exe = "/usr/bin/cvc5"
+    if not os.path.exists(exe):
+        SECOND["budget"] = 0
+        return
+    text = "(set-logic ALL)\n" + solver.to_smt2()
+    if "(subset " in text or "(setminus " in text or "(union " in text or "(intersection " in text:
+        # z3's set operators over (Array T Bool) have no SMT-LIB spelling cvc5 accepts
+        SECOND["unsupported"] += 1
+        SECOND["rechecked"] += 1
+        return
+    SECOND["budget"] -= 1
+    t = time.time()
+    try:
+        p = subprocess.run([exe, "--lang", "smt2", "--strings-exp", "--dt-nested-rec", "--tlimit=8000"], input=text,
+                           capture_output=True, text=True, timeout=12)
+        out = (p.stdout.strip().splitlines() or [""])[0]
+    except Exception:
+        out = "unknown"
+    SECOND["time_ms"] += int((time.time() - t) * 1000)
+    SECOND["rechecked"] += 1
+    if out == "unsat":
+        SECOND["agree"] += 1
+    elif out == "sat":
+        SECOND["disagree"] += 1
+        fd, path = tempfile.mkstemp(prefix="pyvc-cvc5-disagreement-", suffix=".smt2")
+        with os.fdopen(fd, "w") as f:
+            f.write(text)
+        SECOND_FILES.append(path)
+    elif out in ("unknown", "") or "timeout" in out or "interrupted" in out:
+        SECOND["unknown"] += 1
+    else:
+        SECOND["unsupported"] += 1
 
 
 class LoopSpec:
